@@ -9,6 +9,8 @@ interface calls available for referenced nodes.  Part 2: meta-theorems (fuel).
 import CamVerif.Proofs.GenApiLemmas
 import CamVerif.Proofs.C03Fuel
 import CamVerif.Proofs.C03Spec
+import CamVerif.Proofs.C03SpecW
+import CamVerif.Proofs.C03Total
 namespace CamVerif.C03
 open CamVerif CamVerif.GenApi CamVerif.GenApiSem
 
@@ -641,6 +643,52 @@ theorem fuel_irrelevant (cx : Ctx F E) (f1 f2 : Nat) (req : Req F) (st : St F)
   · obtain ⟨k, rfl⟩ := Nat.exists_eq_add_of_le h
     exact fuel_mono cx f2 k req st h2
 
+/-- **acyclic_terminates**: on a graph that is acyclic w.r.t. a rank function (a node's
+interface calls are determined by those of strictly lower-ranked nodes, `Acyclic`), with
+helper layers that never answer the model-only `outOfFuel`, a request on node `n` with
+fuel `rank n + 1` (or more) never runs out of fuel — and by `fuel_mono` its answer is the
+same for every larger fuel. -/
+theorem acyclic_terminates (cx : Ctx F E) (rank : NodeId → Nat) (hA : Acyclic cx rank)
+    (hops : OpsTotal cx.ops) (req : Req F) (st : St F) (k : Nat) :
+    (exec cx (rank (reqNode req) + 1 + k) req st).1 ≠ .err .outOfFuel ∧
+    exec cx (rank (reqNode req) + 1 + k) req st = exec cx (rank (reqNode req) + 1) req st := by
+  have h0 : (exec cx (rank (reqNode req) + 1) req st).1 ≠ .err .outOfFuel := by
+    simp only [exec]
+    let ok : NodeId → Bool := fun p => decide (rank p < rank (reqNode req))
+    have ht : TotalRec (patchRec ok (execRec cx (rank (reqNode req)))) :=
+      patch_total (fun p hp => total_below hA hops _ p (by simpa [ok] using hp))
+    rw [hA.top req st _ (patchRec ok (execRec cx (rank (reqNode req))))
+      (fun p hp => patch_agree _ (by simpa [ok] using hp))]
+    exact top_total ht hops req st
+  have h1 := fuel_mono cx (rank (reqNode req) + 1) k req st h0
+  exact ⟨by rw [h1]; exact h0, h1⟩
+
+/-- The syntactic form of acyclicity (every node id mentioned by a node — controllers, value
+sources and targets, selectors, indexed values, address and length elements, formula
+variables, converter pValue — has a strictly smaller rank).  That it implies the semantic
+`Acyclic` is not proved here (listed as partial); kept as a type-checked statement. -/
+def acyclic_syntactic_statement : Prop :=
+  ∀ (F E : Type) (cx : Ctx F E) (rank : NodeId → Nat) (refs : Node F E → List NodeId),
+    (∀ n nd, cx.graph n = some nd → ∀ p ∈ refs nd, rank p < rank n) →
+    (∀ nd p, p ∈ refs nd ↔
+      (nd.base.pIsImplemented = some p ∨ nd.base.pIsAvailable = some p ∨ nd.base.pIsLocked = some p ∨
+       (∃ rb, nd.regBase? = some rb ∧
+          (rb.length = .pnode p ∨ .address (.pnode p) ∈ rb.addrs ∨ .intSwissKnife p ∈ rb.addrs ∨
+           (∃ o, .pIndex p o ∈ rb.addrs) ∨ (∃ q, .pIndex q (some (.pnode p)) ∈ rb.addrs))) ∨
+       (∃ b vk mn mx inc, (nd = .integer b vk mn mx inc ∧ (mn = .pnode p ∨ mx = .pnode p ∨ inc = .pnode p)) ∨
+          (∃ finc, nd = .float b vk mn mx finc ∧ (mn = .pnode p ∨ mx = .pnode p ∨ finc = some (.pnode p))) ∨
+          ((nd = .integer b vk mn mx inc ∨ ∃ finc, nd = .float b vk mn mx finc) ∧
+            (vk = .pValue p [] ∨ (∃ q cs, vk = .pValue q cs ∧ (p = q ∨ p ∈ cs)) ∨
+             (∃ sel es d, vk = .pIndex sel es d ∧ (p = sel ∨ d = .pnode p ∨ ∃ i, (i, .pnode p) ∈ es))))) ∨
+       (∃ b fm a c, (nd = .converter b fm a c p ∨ nd = .intConverter b fm a c p)) ∨
+       (∃ b fm a c q nm, (nd = .converter b fm a c q ∨ nd = .intConverter b fm a c q ∨
+          nd = .swissKnife b fm a ∨ nd = .intSwissKnife b fm a) ∧ (nm, p) ∈ fm.vars) ∨
+       (∃ b v x y, nd = .boolean b v x y ∧ v = .pnode p) ∨
+       (∃ b v c, nd = .command b v c ∧ (v = .pnode p ∨ c = .pnode p)) ∨
+       (∃ b es v, nd = .enumeration b es v ∧ v = .pnode p) ∨
+       (∃ b v, nd = .string b v ∧ v = .pnode p))) →
+    Acyclic cx rank
+
 private theorem runR_fst {α : Type} (m : R F α) (f : α → Val F) (st : St F) :
     (runR m f st).1 =
       match R.val m st.s with
@@ -698,6 +746,78 @@ theorem refines_spec_partial (cx : Ctx F E) (hnf : NoFormulaNodes cx) (fuel : Na
       (fun x h => (regAddressF_iff cx hnf fuel n st.s x).mpr h)
   · exact read_iff st l (fun a b h => by injection h) (fun x h => (regLengthF_iff cx hnf fuel n st.s x).mp h)
       (fun x h => (regLengthF_iff cx hnf fuel n st.s x).mpr h)
+
+private theorem runM_eff (m : M F Unit) (st : St F) (s' : S F) :
+    ((runM m st).1 = .ok .unit ∧ (runM m st).2.s = s') ↔ M.eff m st.s = (.ok (), s') := by
+  unfold runM M.eff
+  cases hm : m st.s with
+  | mk r rest =>
+    obtain ⟨s1, l⟩ := rest
+    cases r with
+    | ok u => cases u; simp [St.s]
+    | err e => simp
+    | panic => simp
+
+/-- **refines_spec_partial (writes)**: on graphs without converter / swiss-knife nodes a
+write (integer / float / string `set_value`, `set_entry_by_value`, boolean `set_value`,
+command `execute`, raw register `write`) succeeds and leaves value store and device image
+`s'` exactly when the independent reference semantics `GenApiSem.setSem` maps the state
+to `s'` — in particular the final device memory of every successful write is the
+reference one (pValue then every pValueCopy in order, the selected pIndex branch, one
+port write of the encoded value at the effective address). -/
+theorem refines_spec_partial_writes (cx : Ctx F E) (hnf : NoFormulaNodes cx) (fuel : Nat) (n : NodeId)
+    (st : St F) (s' : S F) :
+    (∀ v, ((exec cx (fuel + 1) (.intSet n v) st).1 = .ok .unit ∧ (exec cx (fuel + 1) (.intSet n v) st).2.s = s') ↔
+        (setSem cx (fuel + 1)).int n v st.s = some s') ∧
+    (∀ v, ((exec cx (fuel + 1) (.floatSet n v) st).1 = .ok .unit ∧ (exec cx (fuel + 1) (.floatSet n v) st).2.s = s') ↔
+        (setSem cx (fuel + 1)).float n v st.s = some s') ∧
+    (∀ v, ((exec cx (fuel + 1) (.strSet n v) st).1 = .ok .unit ∧ (exec cx (fuel + 1) (.strSet n v) st).2.s = s') ↔
+        (setSem cx (fuel + 1)).str n v st.s = some s') ∧
+    (∀ v, ((exec cx (fuel + 1) (.enumSetByValue n v) st).1 = .ok .unit ∧
+           (exec cx (fuel + 1) (.enumSetByValue n v) st).2.s = s') ↔
+        (setSem cx (fuel + 1)).enum n v st.s = some s') ∧
+    (∀ b, ((exec cx (fuel + 1) (.boolSet n b) st).1 = .ok .unit ∧ (exec cx (fuel + 1) (.boolSet n b) st).2.s = s') ↔
+        specBoolSet cx fuel n b st.s = some s') ∧
+    (((exec cx (fuel + 1) (.cmdExecute n) st).1 = .ok .unit ∧ (exec cx (fuel + 1) (.cmdExecute n) st).2.s = s') ↔
+        specCmdExecute cx fuel n st.s = some s') ∧
+    (∀ data, ((exec cx (fuel + 1) (.regWrite n data) st).1 = .ok .unit ∧
+              (exec cx (fuel + 1) (.regWrite n data) st).2.s = s') ↔
+        specRegWrite cx fuel n data st.s = some s') := by
+  have ihB := valIH cx hnf fuel
+  have ihA := specIH cx fuel
+  have ihS := setIH cx hnf fuel
+  refine ⟨fun v => ?_, fun v => ?_, fun v => ?_, fun v => ?_, fun b => ?_, ?_, fun data => ?_⟩ <;>
+    simp only [exec, top, runM_eff, setSem]
+  · exact intSetF_iff hnf ihB ihA ihS
+  · exact floatSetF_iff hnf ihB ihA ihS
+  · exact strSetF_iff ihB ihA ihS
+  · exact enumSetByValueF_iff ihS
+  · unfold boolSetF specBoolSet
+    cases hg : cx.graph n with
+    | none => simp
+    | some nd =>
+      cases nd <;> simp only <;> try (simp; done)
+      exact sonSetInt_iff ihS
+  · unfold cmdExecuteF specCmdExecute
+    cases hg : cx.graph n with
+    | none => simp
+    | some nd =>
+      cases nd <;> simp only <;> try (simp; done)
+      rename_i b value cmdValue
+      simp only [commandExecute, M.eff_bind_ok_iff, M.eff_ofR, Prod.mk.injEq, Option.bind_eq_some_iff]
+      constructor
+      · rintro ⟨v, s1, ⟨hv, rfl⟩, h⟩
+        exact ⟨v, slotOrNodeIntValue_spec ihB hv, (sonSetInt_iff ihS).mp h⟩
+      · rintro ⟨v, hv, h⟩
+        exact ⟨v, st.s, ⟨sonInt_exec ihA hv, rfl⟩, (sonSetInt_iff ihS).mpr h⟩
+  · unfold regWriteF specRegWrite
+    cases hg : cx.graph n with
+    | none => simp
+    | some nd =>
+      simp only
+      cases hr : nd.regBase? with
+      | none => simp
+      | some rb => exact writeAndCache_iff ihB ihA
 
 /-- Without any restriction on the graph: wherever the reference semantics assigns a
 value, the interpreter returns exactly it (formula nodes simply have no reference value). -/
@@ -802,6 +922,9 @@ example : (exec Ex.cx 4 (.boolValue 10) Ex.st).1 = .err .invalidNode ∧
   constructor <;> rfl
 /-- the reference semantics assigns 7 to node 6 (selector 1 ↦ register 3 ↦ device byte 7) -/
 example : (valSem Ex.cx 4).int 6 Ex.st.s = some 7 := by rfl
+/-- the reference write semantics of the fan-out example: slot of node 2, registers 3 and 4 -/
+example : (setSem Ex.cx 4).int 5 9 Ex.st.s =
+    some ⟨[.int 1, .int 9, .int 20, .int 30, .int 0, .int 1, .int 0, .int 9], ⟨[9, 8, 9, 10], 0, 0⟩⟩ := by rfl
 /-- the example graph is inside the scope of `refines_spec_partial` -/
 example : NoFormulaNodes Ex.cx := fun n =>
   match n with
@@ -813,5 +936,61 @@ example : (exec Ex.cx 4 (.intSet 5 9) Ex.st).1 ≠ .err .outOfFuel ∧
   constructor
   · intro h; cases h
   · rfl
+
+namespace Ex2
+/-- 0: Integer over a value-store slot · 1: Integer with pValue 0, locked by 0, pMax 0, pInc 0 -/
+def graph : Graph Int Unit
+  | 0 => some (.integer {} (.value 0) (.imm 1) (.imm 2) (.imm 1))
+  | 1 => some (.integer { pIsLocked := some 0 } (.pValue 0 []) (.imm 1) (.pnode 0) (.pnode 0))
+  | _ => none
+def cx : Ctx Int Unit := ⟨Ex.ops, Profile.dev, graph⟩
+end Ex2
+
+macro "unfold_ex2 " h:ident : tactic => `(tactic|
+  simp only [step, top, runR, runM, intValueF, intSetF, intMinF, intMaxF, intIncF, intSetMinF, intSetMaxF,
+    intIsReadableF, intIsWritableF, isReadableF, isWritableF, isImplementedF, isAvailableF, isLockedF,
+    floatValueF, floatSetF, floatMinF, floatMaxF, floatIncF, floatSetMinF, floatSetMaxF, floatIsReadableF,
+    floatIsWritableF, strValueF, strSetF, strMaxLengthF, strIsReadableF, strIsWritableF, boolValueF, boolSetF,
+    boolIsReadableF, boolIsWritableF, enumCurrentValueF, enumCurrentEntryF, enumSetByValueF, enumSetByNameF,
+    enumEntriesF, enumIsReadableF, enumIsWritableF, cmdExecuteF, cmdIsDoneF, cmdIsWritableF, regReadF,
+    regWriteF, regAddressF, regLengthF, Node.base, Node.regBase?,
+    Ex2.cx, Ex2.graph, vkIntValue, vkIntSet, vkIsReadable, vkIsWritable, pValueIntSet, pValueIsWritable,
+    copiesIntSet, copiesIsWritable, nidIntValue, nidIntSet, nidIsReadable, nidIsWritable, isIntKind,
+    isFloatKind, isStrKind, isBoolKind, isEnumKind,
+    slotOrNodeIntValue, slotOrNodeIntSet, immIntValue, baseIsReadable, baseIsWritable, baseIsImplemented,
+    baseIsAvailable, baseIsLocked, boolFromId, if_true, Bool.false_eq_true, if_false,
+    ($h).intValue, ($h).intSet, ($h).intIsReadable, ($h).intIsWritable])
+
+/-- the hypotheses of `acyclic_terminates` are satisfiable: this graph is acyclic for rank = id -/
+theorem Ex2.acyclic : Acyclic Ex2.cx (fun n => n) where
+  step n r1 r2 h := by
+    match n with
+    | 0 => constructor <;> rfl
+    | 1 =>
+      have h0 := h 0 (by decide)
+      constructor
+      all_goals first
+        | rfl
+        | (funext v; unfold_ex2 h0)
+        | (unfold_ex2 h0)
+    | _ + 2 => constructor <;> rfl
+  top req st r1 r2 h := by
+    cases req <;> simp only [reqNode] at h <;>
+      (first
+        | (rename_i n; match n, h with
+            | 0, _ => rfl
+            | 1, h => (have h0 := h 0 (by decide); first | rfl | (unfold_ex2 h0))
+            | _ + 2, _ => rfl)
+        | (rename_i n m; match n, h with
+            | 0, _ => rfl
+            | 1, h => (have h0 := h 0 (by decide); first | rfl | (unfold_ex2 h0))
+            | _ + 2, _ => rfl))
+
+theorem Ex2.opsTotal : OpsTotal Ex2.cx.ops := by
+  constructor <;> intros <;> simp [Ex2.cx, Ex.ops] <;> (try split) <;> simp
+
+/-- … and the conclusion applied: reading node 1 with fuel rank + 1 = 2 (or any more) is answered -/
+example (st : St Int) (k : Nat) : (exec Ex2.cx (1 + 1 + k) (.intValue 1) st).1 ≠ .err .outOfFuel :=
+  (acyclic_terminates Ex2.cx (fun n => n) Ex2.acyclic Ex2.opsTotal (.intValue 1) st k).1
 
 end CamVerif.C03
